@@ -394,7 +394,7 @@ func z4Sig(f string) string {
 func ZZVerifC04() {
 	r := evid.Start("C04", "model_checking")
 	thorough := evid.Thorough()
-	ztSetupProcess("c04")
+	ztSetupProcess("c04[x]") // (the models directory has glob metacharacters in its path: they must not matter)
 	defer ztCleanupProcess()
 	if p := evid.ReplayPath(); p != "" {
 		var rp z4Replay
@@ -415,10 +415,10 @@ func ZZVerifC04() {
 		gos.Exit(0)
 	}
 	alphabet := z4Alphabet(thorough)
-	depth := 4
+	depth := 3
 	budget := 240 * gotime.Second
 	if thorough {
-		depth = 6
+		depth = 5
 		budget = 18 * gotime.Minute
 	}
 	deadline := gotime.Now().Add(budget)
